@@ -426,6 +426,15 @@ func genC13(cw *caseWriter, seed uint64, tier string) {
 		cast.TimeStringFormat = saved
 	}
 	keptExporters = map[string]*keptExporter{}
+	// several typed columns in one line, one of which refuses its value, through the STREAMER under a processor that
+	// carries on (what jl does): the refused line has no output — the other typed columns of that line are not
+	// written as null, the lines around it are written as they are
+	for _, ty := range []string{"i64", "i8", "f64", "time", "bool"} {
+		cols := []colDesc{{name: "a", format: "numeric", ty: ty}, {name: "b", format: "numeric", ty: "i64"}, {name: "c", format: "string", ty: "i16"}}
+		data := []byte("{\"a\":1,\"b\":2,\"c\":\"3\"}\n{\"a\":\"x\",\"b\":2,\"c\":\"3\"}\n{\"a\":1,\"b\":\"y\",\"c\":\"3\"}\n{\"a\":1,\"b\":2,\"c\":\"70000\"}\n{\"b\":9223372036854775807}\n")
+		emitStream(cw, "C13", cols, cols, "tolerant", chunk(data, []int{1 << 20}), nil, data, true)
+		emitStream(cw, "C13", cols, cols, "default", chunk(data, []int{7}), nil, data, true)
+	}
 	for _, f := range fmtNames {
 		for _, ty := range tyNames {
 			if f == "hidden" {
